@@ -3,7 +3,8 @@ from . import front, contracts, harness
 from .interp import Incomplete, Sink
 from .ir import IRError
 from .specs.base_spec import NoSpec
-from .poly import Poly, FV
+from .poly import Poly, FV, as_poly
+import re as _re
 
 
 def site_of(mod, name):
@@ -45,20 +46,96 @@ def check_overload(rep, mod, cfg, name, specfn, alias=None, extents_fn=None, sam
     ctx = contracts.Ctx()
     summ, _ = contracts.wrapper_summaries(mod, ctx)
     summ.pop(name, None)       # the routine under analysis is interpreted, not summarised
+    # path splitting on equality tests of scalar shape parameters (e.g. a fast path for stride == 1): each path is
+    # analysed with the decided value substituted and compared with the specification under the same substitution
     try:
-        ext = extents_fn(harness.describe(mod, name)) if extents_fn else None
-        eff = harness.run_routine(mod, name, summ, alias=alias, extents=ext)
-    except (Incomplete, IRError, NoSpec) as e:
+        params0 = harness.describe(mod, name)
+        ext = extents_fn(params0) if extents_fn else None
+    except (Incomplete, NoSpec) as e:
         rep.incomplete('value:' + tag, 'wrapper-value', site, str(e))
         return
-    except Sink as e:
-        rep.refute('safety:' + tag, 'wrapper-safety', sink_site(e, site), '%s (in %s)' % (e, ' <- '.join(e.stack[:3])))
-        return
+    scalars = {p.name for p in params0 if p.irty[0] == 'i' and p.dty != 'E'}
+    work = [{}]
+    npaths = 0
+    while work:
+        dec = work.pop()
+        npaths += 1
+        if npaths > 16:
+            rep.incomplete('value:' + tag, 'wrapper-value', site, 'more than 16 shape-dependent paths')
+            return
+        values = {k[0]: k[1] for k, v in dec.items() if v}
+
+        def decide(pred, a, b, dec=dec):
+            d = as_poly(a) - as_poly(b)
+            if pred not in ('eq', 'ne') or len(d.d) > 2:
+                return None
+            sym = [m for m in d.d if m != ()]
+            if len(sym) != 1 or len(sym[0]) != 1 or sym[0][0][1] != 1 or sym[0][0][0] not in scalars:
+                return None
+            co = d.d[sym[0]]
+            k0 = d.d.get((), 0)
+            if co not in (1, -1):
+                return None
+            key = (sym[0][0][0], (-k0) * co)
+            if key not in dec:
+                raise _NeedDecision(key)
+            return dec[key] if pred == 'eq' else (not dec[key])
+        ctx.violations.clear()
+        try:
+            eff = harness.run_routine(mod, name, summ, alias=alias, extents=ext, values=values, opts={'decide': decide})
+        except _NeedDecision as nd:
+            for v in (True, False):
+                d2 = dict(dec)
+                d2[nd.key] = v
+                work.append(d2)
+            continue
+        except (Incomplete, IRError, NoSpec) as e:
+            rep.incomplete('value:' + tag, 'wrapper-value', site, str(e))
+            return
+        except Sink as e:
+            rep.refute('safety:' + tag, 'wrapper-safety', sink_site(e, site), '%s (in %s)' % (e, ' <- '.join(e.stack[:3])))
+            return
+        ptag = tag + ('' if not dec else ' path[' + ','.join('%s%s%d' % (k[0], '==' if v else '!=', k[1]) for k, v in sorted(dec.items())) + ']')
+        _compare(rep, mod, cfg, name, dem, ptag, site, specfn, eff, ctx, values, alias, sample)
+
+
+class _NeedDecision(Exception):
+    def __init__(s, key):
+        Exception.__init__(s, str(key))
+        s.key = key
+
+
+def _subst_key(k, mp):
+    reg, off = k
+    if isinstance(off, Poly):
+        off = off.subst(mp)
+        if off.isconst():
+            off = off.cval()
+    return (reg, off)
+
+
+def _compare(rep, mod, cfg, name, dem, tag, site, specfn, eff, ctx, values, alias, sample):
     try:
         exp_w, exp_r, subst, desc = specfn(dem, eff.params)
     except NoSpec as e:
         rep.incomplete('value:' + tag, 'wrapper-value', site, 'signature outside the grammar: %s' % e)
         return
+    if values:
+        mp = {k: Poly.const(v) for k, v in values.items()}
+        # cell atoms embed their index text: rebuild names under the substitution
+        def sub_poly(p):
+            out = Poly()
+            for m, c in p.d.items():
+                t = Poly.const(c)
+                for x, e in m:
+                    nx = _rename_atom(x, mp)
+                    f = mp.get(nx, Poly.var(nx))
+                    for _ in range(e):
+                        t = t * f
+                out = out + t
+            return out.modp()
+        exp_w = {_subst_key(k, mp): sub_poly(v) for k, v in exp_w.items()}
+        exp_r = {_subst_key(k, mp) for k in exp_r}
     got = {}
     for k, v in eff.writes.items():
         if isinstance(v, int):
@@ -100,3 +177,31 @@ def check_overload(rep, mod, cfg, name, specfn, alias=None, extents_fn=None, sam
     for a in eff.interp.assumptions:
         if a not in rep.assumptions:
             rep.assumptions.append(a)
+
+
+def _rename_atom(x, mp):
+    """atom names are 'region[index polynomial]': re-evaluate the index under a substitution of scalar symbols"""
+    m = _re.match(r'^([^\[]+)\[(.*)\]$', x)
+    if not m:
+        return x
+    idx = m.group(2)
+    if not any(k in idx for k in mp):
+        return x
+    # parse the printed polynomial (sum of c*sym*sym^e terms)
+    p = Poly()
+    for term in idx.split(' + '):
+        co = 1
+        mono = {}
+        for f in term.split('*'):
+            f = f.strip()
+            if _re.match(r'^-?\d+$', f):
+                co *= int(f)
+            else:
+                mm = _re.match(r'^(.*)\^(\d+)$', f)
+                if mm:
+                    mono[mm.group(1)] = mono.get(mm.group(1), 0) + int(mm.group(2))
+                else:
+                    mono[f] = mono.get(f, 0) + 1
+        p = p + Poly({tuple(sorted(mono.items())): co})
+    p = p.subst(mp)
+    return '%s[%s]' % (m.group(1), p)
